@@ -386,25 +386,29 @@ def variant_servers() -> dict[str, tuple[Any, str | None]]:
 async def drive_variants(seed: int, corpus: TwinCorpus) -> dict[str, list[dict[str, Any]]]:
     """The twin family over server variants (added to `corpus`; the caller validates and removes them)."""
     out: dict[str, list[dict[str, Any]]] = {}
-    rnd = random.Random(seed + 5)
-    sd, pa = 1 + 17 * seed, "default"
-    base = await E.make_server(sd, pa)
-    m = E.model_of(base)
-    m2 = twin_model(m, [C.unoffered_session(m)])
-    mi, mi2 = corpus.model_index(m), corpus.model_index(m2)
-    for name, (cls, _prefix) in variant_servers().items():
-        o = cls(base.seed, base.randomness_parameters)
-        o.services = base.services
-        t = await make_twin(sd, pa, m2, cls=cls)
-        po, pt = E.Probe(o), E.Probe(t)
-        n0 = len(corpus.traces)
-        for B in (E.ALL - {"sns"}, E.ALL - {"sfns"}, E.ALL - {"sns", "sfns"}, frozenset()):
-            for home in home_sessions(m, B, True):
-                po.fresh(B)
-                pt.fresh(B)
-                so, _st = await run_pair(po, pt, m, B, twin_items(m, home, B, rnd, True), home)
-                corpus.add_twinned(m=mi, m2=mi2, B=B, steps=so, meta={"origin": "twin-variant", "variant": name})
-        out[name] = corpus.traces[n0:]
+    pa = "default"
+    rnd_fixed, rnd_own = random.Random(5), random.Random(seed + 5)
+    # the run's own model plus two fixed ones: whether a variant CAN show (e.g. a session that does not offer ECUReset)
+    # depends on the model, the self-test must not depend on the run's seed (found with VERIF_SEED=1)
+    for sd in dict.fromkeys((1, 35, 1 + 17 * seed)):
+        rnd = rnd_fixed if sd in (1, 35) else rnd_own
+        base = await E.make_server(sd, pa)
+        m = E.model_of(base)
+        m2 = twin_model(m, [C.unoffered_session(m)])
+        mi, mi2 = corpus.model_index(m), corpus.model_index(m2)
+        for name, (cls, _prefix) in variant_servers().items():
+            o = cls(base.seed, base.randomness_parameters)
+            o.services = base.services
+            t = await make_twin(sd, pa, m2, cls=cls)
+            po, pt = E.Probe(o), E.Probe(t)
+            n0 = len(corpus.traces)
+            for B in (E.ALL - {"sns"}, E.ALL - {"sfns"}, E.ALL - {"sns", "sfns"}, frozenset()):
+                for home in home_sessions(m, B, True):
+                    po.fresh(B)
+                    pt.fresh(B)
+                    so, _st = await run_pair(po, pt, m, B, twin_items(m, home, B, rnd, True), home)
+                    corpus.add_twinned(m=mi, m2=mi2, B=B, steps=so, meta={"origin": "twin-variant", "variant": name})
+            out.setdefault(name, []).extend(corpus.traces[n0:])
     return out
 
 
